@@ -179,4 +179,39 @@ def exC : Tree :=
 
 example : WF exC = true ∧ continuous exC = true ∧ (boydSplit exC).toOption.isSome = true := by decide
 
+/-! ## the result is the reference tree -/
+
+/-- per node: the blocks of `x` after raising are the node the reference keeps (flagged iff `x` is a
+    head child) plus the material the reference hands upward, up to order and normal form -/
+theorem boydNode_contSpec (x : Tree) (bs : List Tree) (h : boydNode x = .ok bs) (hne : x.noEmpty = true)
+    (hn : x.leafNums.Nodup)
+    (hh : ∀ s ∈ x.subtrees, ∀ f ks, s = node f ks → (ks.filter (fun k => k.fields.head == some true)).length = 1) :
+    ((raiseKids bs).map fun y => sortKids (stripT y)).Perm
+      (((contSpec x).1 :: (contSpec x).2).map fun y => sortKids (stripT y)) := by
+  have := (Lemmas.Boyd.boydNode_spec x bs h hne hn hh).map (·.2)
+  rw [Lemmas.Boyd.FB_map_snd] at this
+  simp only [List.map_cons, List.map_map, Function.comp_def] at this
+  exact this
+
+/-- hardest: the result is the reference tree -/
+theorem raise_spec (t t' : Tree) (h : boydSplit t = .ok t') (hwf : WF t = true)
+    (hh : ∀ s ∈ t.subtrees, ∀ f ks, s = node f ks → (ks.filter (fun k => k.fields.head == some true)).length = 1) :
+    sortKids (stripT (raising t')) = sortKids (stripT (contSpecRoot t)) := by
+  have hne := Lemmas.WF.WF_noEmpty t hwf
+  have hn := Lemmas.WF.WF_nodup t hwf
+  have hb := boydSplit_ok t t' h
+  cases t with
+  | leaf n f => simp [WF, isLeaf] at hwf
+  | node f ks => exact Lemmas.Boyd.root_spec f ks t' hb hne hn hh
+
+example : (∀ s ∈ exT.subtrees, ∀ f ks, s = node f ks →
+    (ks.filter (fun k => k.fields.head == some true)).length = 1) := by
+  intro s hs f ks h
+  simp only [exT, subtrees, subtreesL, List.mem_cons, List.cons_append, List.nil_append,
+    List.append_nil, List.not_mem_nil, or_false] at hs
+  rcases hs with rfl | rfl | rfl | rfl | rfl | rfl <;> cases h <;> decide
+
+example : beq (sortKids (stripT (raising exSplit))) (sortKids (stripT (contSpecRoot exT))) = true := by
+  decide
+
 end TT.Props.C05
